@@ -130,7 +130,9 @@ func ProcessOverrides(module *Module, constants PipelineConstants) error {
 		if err != nil {
 			return fmt.Errorf("override %q: %w", module.Overrides[i].Name, err)
 		}
-		resolvedValues[i] = val
+		// An override has the supplied (or default) value converted to its own
+		// type; overrides and initialisers that depend on it must see that value.
+		resolvedValues[i] = LiteralToFloat(makeOverrideLiteral(module, module.Overrides[i].Ty, val).Value)
 	}
 
 	// Phase 2: Create constants for each override and replace ExprOverride
